@@ -177,3 +177,13 @@ func IteBool(c bool, a, b bool) bool {
 
 // Concrete forces a symbolic value to a concrete one by case split (engine); identity natively.
 func Concrete(x uint64) uint64 { return x }
+
+// Param is a concrete bound chosen by the check driver (default def).
+func Param(name string, def int) int {
+	if cur != nil {
+		if v, ok := cur.rp.Inputs["param:"+name]; ok {
+			return int(int64(v))
+		}
+	}
+	return def
+}
